@@ -110,6 +110,8 @@ Definition apply_fn (fn : bstr) (args : list darg) (s : bstr) : outcome bstr :=
     match args with
     | [DInt n] => truncate s n true
     | [DInt n; DBool e] => truncate s n e
+    | [DInt n; _] =>           (* the ellipsis argument is type-checked only when the value does not fit *)
+        if (Z.of_nat (length s) <=? n)%Z then Ok s else Err e_type
     | _ => Err e_type
     end
   else OutOfModel.
